@@ -127,6 +127,7 @@ func runCheck(prop string, thorough bool, repo string, writeExpected bool) int {
 	// lemmas used by these units
 	lemmaObls := eng.LemmaObligations(reports, prop)
 	all = append(all, lemmaObls...)
+	all = append(all, eng.WriterObligations(prop)...)
 	vc.SolveAll(all, timeout, need)
 
 	if writeExpected {
